@@ -219,6 +219,9 @@ const crashSrvMsize = 200000
 
 func modeCrashChild(tier string, args []string) {
 	dir := args[0]
+	if os.Getenv("VERIF_AKAROS") == "1" {
+		*go9p.Akaros = true // the library's global "-akaros" switch: other Rerror text, directory reads cut at count
+	}
 	listen := func(name string) net.Listener {
 		l, err := net.Listen("unix", filepath.Join(dir, name))
 		if err != nil {
@@ -263,6 +266,9 @@ type crashChild struct {
 	mu     sync.Mutex
 }
 
+// second pass of the crash search: the child runs with the library's -akaros switch on
+var childAkaros bool
+
 func startChild(dir string, n int) (*crashChild, error) {
 	for _, s := range []string{"s.sock", "a.sock", "u.sock"} {
 		os.Remove(filepath.Join(dir, s))
@@ -274,6 +280,9 @@ func startChild(dir string, n int) (*crashChild, error) {
 		return nil, err
 	}
 	c.cmd = exec.Command(exe, "crashchild", "x", dir)
+	if childAkaros {
+		c.cmd.Env = append(os.Environ(), "VERIF_AKAROS=1")
+	}
 	c.cmd.Stderr = ef
 	c.cmd.Stdout = ef
 	c.stdin, _ = c.cmd.StdinPipe()
@@ -941,12 +950,38 @@ func modeCrash(tier string, args []string) {
 	w := bufio.NewWriter(io.Discard)
 	_ = w
 	corpus := truncCases(tier == "thorough")
-	for i := 0; i < ncases+len(corpus) && deaths < 5; i++ {
+	total := ncases + len(corpus)
+	// the last quarter again on a child started with -akaros (observation only: Akaros mode has no model)
+	nak := ncases / 4
+	for i := 0; i < total+nak && deaths < 5; i++ {
 		var cc crashCase
+		if i == total {
+			childAkaros = true
+			nchild++
+			ch.stdin.Close()
+			ch.cmd.Process.Kill()
+			prepareTree(root)
+			if ch, err = startChild(base, nchild); err != nil {
+				emit("HARNESSERROR restart (akaros): %v", err)
+				return
+			}
+			for t := range sockOf {
+				if by[t] != nil {
+					by[t].c.Close()
+				}
+				if by[t] = newBystander(base, t); by[t] == nil {
+					emit("HARNESSERROR bystander %s (akaros)", t)
+					return
+				}
+			}
+		}
 		if i < len(corpus) {
 			cc = corpus[i]
-		} else {
+		} else if i < total {
 			cc = genCrashCase(i - len(corpus))
+		} else {
+			cc = genCrashCase(ncases - nak + (i - total))
+			cc.kind += "+akaros"
 		}
 		// the victim file / tree may have been changed by earlier cases
 		if i%50 == 0 {
